@@ -135,7 +135,7 @@ def check(ctx, rng, home, deciding=True):
     from bridgepoint import prebuild
     g = pbgen.Gen(rng, home, events=True)
     tree = g.program()
-    text = om.render(tree, rng, layout=rng.choice(('canonical', 'random')), case='lower')
+    text = om.render(tree, rng, layout=rng.choice(('canonical', 'random')), case=rng.choice(('lower', 'lower', 'lower', 'upper', 'capital', 'random')))
     m = c05.fresh_model()
     inst = pbgen.home_instance(m, home)
     inst.Action_Semantics_internal = text
